@@ -44,6 +44,15 @@ class Ob:
     def m(self, *a, **kw):
         return ('m', a, tuple(sorted(kw.items())))
 
+    @property
+    def prop(self):
+        return self.missing_inner            # the getter itself fails on ANOTHER attribute name: the step 'prop' is what fails
+
+    def __getattr__(self, name):
+        if name == 'fwd':
+            return getattr(self, 'forwarded_under_another_name')       # raises AttributeError naming the other attribute
+        raise AttributeError(name)
+
     def __repr__(self):
         return 'Ob()'
 
@@ -120,7 +129,7 @@ LIT = lambda v: {'lit': v}
 TA = {'T': [['[', LIT('a')]]}          # T['a']
 
 OPS = []
-for name in ('real', 'x', 'zz', 'm', 'upper', 'lst'):
+for name in ('real', 'x', 'zz', 'm', 'upper', 'lst', 'prop', 'fwd'):
     OPS.append(['.', name])
 for v in (0, -1, 'a', 'zz', 5, 'f', 'g', 'l', 0.0, False):
     OPS.append(['[', LIT(v)])
@@ -143,6 +152,9 @@ CALLS = [
     [[LIT(1), {'spec': 'a'}], {'z': LIT(None)}],
     [[{'dictitems': [[TA, LIT('v')], [LIT('k'), TA]]}], {}],                       # a spec in KEY position of a dict argument
     [[], {'rows': {'list': [{'dictitems': [[{'spec': 'a'}, LIT(1)]]}]}}],
+    # keyword names that an implementation is likely to use for its own parameters
+    [[], {'func': LIT(1), 'args': LIT(2), 'kwargs': LIT(3)}],
+    [[LIT(0)], {'target': TA, 'scope': LIT(None), 'spec': LIT('s'), 'cur': LIT(4)}],
 ]
 for a, kw in CALLS:
     OPS.append(['(', a, kw])
